@@ -215,6 +215,10 @@ type exploreCase struct {
 	// Delivery (C12): assert that a response arriving while its transaction is in flight reaches that
 	// transaction's handler
 	Delivery bool `json:"delivery,omitempty"`
+	// Renest: the handler of transaction 0 starts a new transaction with the same id when it receives the
+	// response (the id is free again at that moment) - while the other goroutine may still be busy with the
+	// previous transaction of that id
+	Renest bool `json:"renest,omitempty"`
 }
 
 type exTx struct {
@@ -284,8 +288,19 @@ func runExplore(c exploreCase) (taken []int, trace []string, err error) {
 
 		return t
 	}
-	start := func(t *exTx) {
-		h := func(e stun.Event) { t.kind.Store(classifyEvent(e)); t.calls.Add(1); t.seq.Store(w.Seq.Add(1)) }
+	var start func(t *exTx)
+	var renested atomic.Bool
+	start = func(t *exTx) {
+		h := func(e stun.Event) {
+			t.kind.Store(classifyEvent(e))
+			t.calls.Add(1)
+			t.seq.Store(w.Seq.Add(1))
+			if c.Renest && t.id == 0 && e.Error == nil && renested.CompareAndSwap(false, true) {
+				// the id is used again as soon as its transaction has ended: from inside the handler
+				nt := newTx(0, false)
+				start(nt)
+			}
+		}
 		if t.isDo {
 			t.err = w.Client.Do(request(t.id, 28), h)
 		} else {
@@ -422,12 +437,24 @@ func runExplore(c exploreCase) (taken []int, trace []string, err error) {
 		s.mu.Lock()
 		both := s.done["A"] && s.done["B"]
 		s.mu.Unlock()
-		if both && len(windowTxs) > 0 && windowTxs[0].id == 0 && windowTxs[0].calls.Load() > 0 {
-			t := newTx(0, false)
-			start(t)
-		}
-		for i := 1; i <= 12 && both; i++ {
-			w.Tick(w.Clock.Elapsed() + time.Second)
+		after := make(chan struct{})
+		go func() {
+			defer close(after)
+			if both && len(windowTxs) > 0 && windowTxs[0].id == 0 && windowTxs[0].calls.Load() > 0 {
+				t := newTx(0, false)
+				start(t)
+			}
+			for i := 1; i <= 12 && both; i++ {
+				w.Tick(w.Clock.Elapsed() + time.Second)
+			}
+		}()
+		select {
+		case <-after:
+		case <-time.After(30 * time.Second):
+			buf := make([]byte, 1<<18)
+			n := runtime.Stack(buf, true)
+
+			return taken, trace, fmt.Errorf("deadlock: after %s || %s in state %s (schedule %v, gates %v) a further Start / collector tick did not return within 30 s\n%s", c.A, c.B, c.State, taken, trace, buf[:n])
 		}
 	}
 	// ---- finalisation: close (if nobody did) and wait for everything
@@ -580,7 +607,10 @@ func exploreAll(t *testing.T, rec *evid.Rec, prop string, budget int, only func(
 					// transactions never share an id.
 					continue
 				}
-				for v := 0; v < 3; v++ {
+				for v := 0; v < 4; v++ {
+					if v == 3 && !(b == "deliver" && a == "tick" && st != "empty" && st != "lastattempt") {
+						continue // id reuse from inside the handler: response || collector tick
+					}
 					if v == 1 && !evid.Thorough() && a != "close" && b != "close" && prop != "C12" {
 						continue // quick tier: the WithNoConnClose/fallback variant only where Close takes part
 					}
@@ -603,8 +633,17 @@ func exploreAll(t *testing.T, rec *evid.Rec, prop string, budget int, only func(
 					for i := range ones {
 						ones[i] = 1
 					}
-					for late := 0; late <= evid.Pick(8, 12); late++ {
-						c := exploreCase{State: st, A: a, B: b, NoConnClose: v == 1, Fallback: v == 1, LateB: late, NoWaitColl: v == 2, Schedule: ones, Delivery: prop == "C12"}
+					firstLate := 0
+					if v == 3 {
+						// The agent's timeout event names the transaction by id only. If the id is used again
+						// before the client has looked that event up, the event is applied to the successor -
+						// inherent to the agent/client interface, not explored. The id is reused only once the
+						// collector goroutine has passed its lookup (released from its first two gates:
+						// agent.collect and the clock read in front of the lookup).
+						firstLate = 2
+					}
+					for late := firstLate; late <= evid.Pick(8, 12); late++ {
+						c := exploreCase{State: st, A: a, B: b, NoConnClose: v == 1, Fallback: v == 1, LateB: late, NoWaitColl: v == 2, Schedule: ones, Delivery: prop == "C12", Renest: v == 3}
 						taken, trace, err := runExplore(c)
 						runs++
 						key := fmt.Sprint(trace)
@@ -619,8 +658,13 @@ func exploreAll(t *testing.T, rec *evid.Rec, prop string, budget int, only func(
 							return
 						}
 					}
+					if v == 3 {
+						for i := range lates {
+							lates[i] += firstLate
+						}
+					}
 					for _, late := range lates {
-						base := exploreCase{State: st, A: a, B: b, NoConnClose: v == 1, Fallback: v == 1, LateB: late, NoWaitColl: v == 2, Delivery: prop == "C12"}
+						base := exploreCase{State: st, A: a, B: b, NoConnClose: v == 1, Fallback: v == 1, LateB: late, NoWaitColl: v == 2, Delivery: prop == "C12", Renest: v == 3}
 						// depth-first search over two-way decisions
 						stack := [][]int{{}}
 						lruns := 0
